@@ -1083,6 +1083,26 @@ main (int argc, char *argv[])
     hwloc_utils_disable_input_format(&input_format);
   }
 
+  /* restrict before looking at depths: levels may disappear */
+  if (restrictstring) {
+    hwloc_bitmap_t restrictset = hwloc_bitmap_alloc();
+    if (!strcmp (restrictstring, "binding")) {
+      if (pid_number > 0)
+	hwloc_get_proc_cpubind(topology, pid, restrictset, HWLOC_CPUBIND_PROCESS);
+      else
+	hwloc_get_cpubind(topology, restrictset, HWLOC_CPUBIND_PROCESS);
+    } else {
+      hwloc_bitmap_sscanf(restrictset, restrictstring);
+    }
+    err = hwloc_topology_restrict (topology, restrictset, restrict_flags);
+    if (err) {
+      perror("Restricting the topology");
+      /* FALLTHRU */
+    }
+    hwloc_bitmap_free(restrictset);
+    free(restrictstring);
+  }
+
   topodepth = hwloc_topology_get_depth(topology);
 
   if (show_ancestor_type) {
@@ -1134,25 +1154,6 @@ main (int argc, char *argv[])
         return EXIT_FAILURE;
       }
     }
-  }
-
-  if (restrictstring) {
-    hwloc_bitmap_t restrictset = hwloc_bitmap_alloc();
-    if (!strcmp (restrictstring, "binding")) {
-      if (pid_number > 0)
-	hwloc_get_proc_cpubind(topology, pid, restrictset, HWLOC_CPUBIND_PROCESS);
-      else
-	hwloc_get_cpubind(topology, restrictset, HWLOC_CPUBIND_PROCESS);
-    } else {
-      hwloc_bitmap_sscanf(restrictset, restrictstring);
-    }
-    err = hwloc_topology_restrict (topology, restrictset, restrict_flags);
-    if (err) {
-      perror("Restricting the topology");
-      /* FALLTHRU */
-    }
-    hwloc_bitmap_free(restrictset);
-    free(restrictstring);
   }
 
   if (best_memattr_str) {
